@@ -35,11 +35,11 @@ type codeProbe struct {
 }
 
 type codeVariant struct {
-	Variant string         `json:"variant"`
-	OK      bool           `json:"ok"`
-	Note    string         `json:"note"`
-	Consts  []codeTerm     `json:"consts"` // Name + Code as the generated program reports them
-	Probes  []codeProbe    `json:"probes"`
+	Variant string      `json:"variant"`
+	OK      bool        `json:"ok"`
+	Note    string      `json:"note"`
+	Consts  []codeTerm  `json:"consts"` // Name + Code as the generated program reports them
+	Probes  []codeProbe `json:"probes"`
 }
 
 type codeObs struct {
